@@ -20,7 +20,7 @@
    For the decoded TEXT of an alphanumeric address there is additionally D16 (code 0x09), stated as the
    hypothesis [~ In 9 ss] of C19_address_text_is_standard. *)
 From V Require Import Model.TpduReaderRun Proofs.TpduReaderSpec.
-From V Require Import Model.TpduRun Spec.Gsm0340 Gen.SmsOctets Proofs.SmsOctetTables Proofs.TpduAlnum Proofs.TpduRoundtrip Proofs.TpduFlags.
+From V Require Import Model.TpduRun Spec.Gsm0340 Gen.SmsOctets Proofs.SmsOctetTables Proofs.TpduAlnum Proofs.TpduRoundtrip Proofs.TpduFlags Proofs.TpduUserData Proofs.TpduMarshalEffect.
 Open Scope N_scope.
 
 (* ---- round trip, octet for octet: any first octet, any PID / DCS, any zone sign, any validity period
@@ -146,6 +146,64 @@ Theorem C19_submit_flag_names_legacy_refuted :
   flag_get SF (unmarshal_flags SF 33 0) "StatusReportRequest"%string = 1 /\
   marshal_flags submit_fields_legacy (unmarshal_flags submit_fields_legacy 33 0) 0 = 33.
 Proof. exact submit_flag_names_legacy_refuted. Qed.
+
+(* ---- the decoded user data, EXACTLY (audit C19-A2).  UserData holds TP-UDL octets: the user-data octets of the TPDU,
+   then [ud_padding] zero octets.  For an octet-counted data coding scheme and for fewer than 8 septets the padding is
+   empty and UserData IS the user data.  For 8 or more septets ([ud_padded]) it is longer than the user data by
+   UDL - ceil(7 UDL / 8) zero octets: the slice length is the only place where the structure keeps TP-UDL.
+   KNOWN FINDING value/user-data/septet-coded-8-or-more-septets-zero-padded-to-tp-udl-octets (not repaired: carrying TP-UDL
+   otherwise needs a new field in Deliver / Submit and their reports, and Marshal reads TP-UDL from this length).  The
+   class is exact: [ud_padding u = 0 <-> ~ ud_padded u]. *)
+Theorem C19_deliver_user_data :
+  forall t : s_deliver,
+    deliver_wf t -> addr_ok (d_oa t) ->
+    exists sc fl oa ts ud,
+      sms_unmarshal (layout_deliver t) =
+        Ok ("Deliver"%string, [TVAddr sc; TVFlags fl; TVAddr oa; TVByte (d_pid t); TVByte (d_dcs t); TVTime ts; TVBytes ud]) /\
+      ud = ud_octets (d_ud t) ++ repeat 0 (ud_padding (d_ud t)) /\
+      (~ ud_padded (d_ud t) -> ud = ud_octets (d_ud t)) /\
+      (ud_padded (d_ud t) -> ud <> ud_octets (d_ud t) /\ List.length ud = N.to_nat (udl (d_ud t))).
+Proof. exact deliver_user_data. Qed.
+Theorem C19_submit_user_data :
+  forall t : s_submit,
+    submit_wf t -> addr_ok (s_da t) ->
+    exists fl da v ud,
+      sms_unmarshal (layout_submit t) =
+        Ok ("Submit"%string, [TVAddr addr0; TVFlags fl; TVByte (s_mr t); TVAddr da; TVByte (s_pid t); TVByte (s_dcs t); TVVP v; TVBytes ud]) /\
+      ud = ud_octets (s_ud t) ++ repeat 0 (ud_padding (s_ud t)) /\
+      (~ ud_padded (s_ud t) -> ud = ud_octets (s_ud t)) /\
+      (ud_padded (s_ud t) -> ud <> ud_octets (s_ud t) /\ List.length ud = N.to_nat (udl (s_ud t))).
+Proof. exact submit_user_data. Qed.
+Theorem C19_user_data_class_exact :
+  forall u, (ud_padding u = 0%nat <-> ~ ud_padded u) /\
+            (forall ss, u = UdSeptets ss -> ud_padding u = (List.length ss - (7 * List.length ss + 7) / 8)%nat).
+Proof. exact (fun u => conj (ud_padding_zero_iff u) (fun ss E => eq_ind_r (fun u => ud_padding u = _) (ud_padding_septets ss) E)). Qed.
+(* witness: eight septets -> seven user-data octets; the decoded UserData has eight (the octets round-trip) *)
+Theorem C19_user_data_padding_refuted :
+  submit_wf w_ud8 /\ ud_padded (s_ud w_ud8) /\ List.length (ud_octets (s_ud w_ud8)) = 7%nat /\
+  exists vs ud, sms_unmarshal (layout_submit w_ud8) = Ok ("Submit"%string, vs) /\ nth_error vs 7 = Some (TVBytes ud) /\
+    List.length ud = 8%nat /\ ud = ud_octets (s_ud w_ud8) ++ [0] /\ ud <> ud_octets (s_ud w_ud8) /\
+    sms_remarshal (layout_submit w_ud8) = Ok (layout_submit w_ud8).
+Proof. exact user_data_padding_refuted. Qed.
+
+(* ---- what sms.Marshal may change in its argument (audit C19-D3).  Marshal writes flags.ValidityPeriodFormat into
+   every SubmitFlags field of the packet it is given; [arg_after] is the packet after the call.
+   (i) nothing a second Marshal can observe - for ANY environment and ANY packet, Marshal of the packet after the call
+       is Marshal of the packet before it;
+   (ii) nothing at all in the structure Unmarshal returned for a well-formed SMS-DELIVER / SMS-SUBMIT
+       ([deliver_vals] / [submit_vals_list] are those structures: C19_deliver_values / C19_submit_values);
+   (iii) content: a SUBMIT-REPORT with TP-VPF bits set IS changed (observation outside C19). *)
+Theorem C19_marshal_twice : forall E p, marshal E (arg_after E p) = marshal E p.
+Proof. exact marshal_after_marshal. Qed.
+Theorem C19_marshal_leaves_decoded_value :
+  (forall t, arg_after sms_env ("Deliver"%string, deliver_vals t) = ("Deliver"%string, deliver_vals t)) /\
+  (forall t, arg_after sms_env ("Submit"%string, submit_vals_list t) = ("Submit"%string, submit_vals_list t)) /\
+  (forall t, deliver_wf t -> addr_ok (d_oa t) -> sms_unmarshal (layout_deliver t) = Ok ("Deliver"%string, deliver_vals t)) /\
+  (forall t, submit_wf t -> addr_ok (s_da t) -> sms_unmarshal (layout_submit t) = Ok ("Submit"%string, submit_vals_list t)).
+Proof. exact (conj deliver_arg_unchanged (conj submit_arg_unchanged (conj deliver_decode submit_decode))). Qed.
+Theorem C19_marshal_changes_submit_report :
+  exists p, sms_unmarshal (hx "019119000000000000000000") = Ok p /\ arg_after sms_env p <> p.
+Proof. exact marshal_changes_submit_report. Qed.
 
 (* [addr_text_spec] reads an alphanumeric address in the tables of the running code; those give the
    standard's characters (GSM 03.38 6.2.1 default alphabet and 6.2.1.1 extension table) unless code
